@@ -394,6 +394,18 @@ def parse_mir(text, want=None):
     wre = re.compile(want) if want else None
     while i < n:
         line = lines[i]
+        if line.startswith("const ") and line.endswith("= {") and "::promoted[" in line:
+            j = i + 1
+            while j < n and lines[j] != "}":
+                j += 1
+            m = re.match(r"const (.*?): (.*) = \{$", line)
+            if m and (wre is None or wre.search(m.group(1))):
+                f = Function(m.group(1), line)
+                f.ret = m.group(2)
+                _parse_body(f, lines[i + 1:j])
+                funcs.setdefault("const " + m.group(1), f)
+            i = j + 1
+            continue
         if line.startswith("fn "):
             m = FN_RE.match(line) or FN_RE_UNIT.match(line)
             # collect body until a line that is exactly "}"
